@@ -1,8 +1,1111 @@
-// Package c03: stub (property not built yet).
 package c03
 
-import "verifharness/hk"
+import (
+	"bytes"
+	"crypto/sha1"
+	"fmt"
+	"sort"
+	"strings"
 
-func NewExec() func(w []string) string { return func([]string) string { return "bad-op" } }
+	"perkeep.org/pkg/blob"
 
-func Run(r *hk.Run) { r.Note("not built yet") }
+	"verifharness/hk"
+)
+
+// ---- generator plumbing ------------------------------------------------------------------------------
+
+type gen struct {
+	r  *hk.Run
+	in *interp
+
+	// linear op paths that reproduce the current dp / fs state from the start of the case (save/restore
+	// are resolved, reads and dumps are left out); used as replay ops of oracle failures
+	dpPath, fsPath   []string
+	dpSaved, fsSaved map[int][]string
+}
+
+func newGen(r *hk.Run) *gen { return &gen{r: r} }
+
+func (g *gen) newCase(label string) {
+	g.r.Case(label)
+	g.in = newInterp()
+	g.dpPath, g.fsPath = nil, nil
+	g.dpSaved, g.fsSaved = map[int][]string{}, map[int][]string{}
+}
+
+func (g *gen) op(line string) string {
+	w := strings.Fields(line)
+	out := g.in.exec(w)
+	g.r.Op(line, out)
+	if out == "harness-err" {
+		g.r.Fail("harness-error", fmt.Sprintf("%s: %v", line, g.in.lastErr), "", "", nil)
+	}
+	if len(w) == 0 {
+		return out
+	}
+	var n int
+	if len(w) == 2 {
+		n, _ = natArg(w[1])
+	}
+	switch w[0] {
+	case "dp.save":
+		g.dpSaved[n] = append([]string(nil), g.dpPath...)
+	case "dp.restore":
+		g.dpPath = append([]string(nil), g.dpSaved[n]...)
+	case "fs.save":
+		g.fsSaved[n] = append([]string(nil), g.fsPath...)
+	case "fs.restore":
+		g.fsPath = append([]string(nil), g.fsSaved[n]...)
+	case "dp.dump", "dp.read", "fs.dump", "fs.read":
+	default:
+		if strings.HasPrefix(w[0], "dp.") {
+			g.dpPath = append(g.dpPath, line)
+		} else {
+			g.fsPath = append(g.fsPath, line)
+		}
+	}
+	return out
+}
+
+// ---- blobs ---------------------------------------------------------------------------------------------
+
+type blobT struct {
+	ref  string
+	body []byte
+}
+
+func mkBlob(rnd *hk.Rand, body []byte) blobT {
+	if rnd.Chance(15) {
+		h := sha1.New()
+		h.Write(body)
+		return blobT{blob.RefFromHash(h).String(), body}
+	}
+	return blobT{blob.RefFromBytes(body).String(), body}
+}
+
+func genBody(rnd *hk.Rand, thorough bool) []byte {
+	sizes := []int{0, 1, 2, 3, 5, 9, 17, 33, 64}
+	n := sizes[rnd.Intn(len(sizes))]
+	if rnd.Chance(20) {
+		n = 65 + rnd.Intn(400)
+	}
+	b := make([]byte, n)
+	switch rnd.Intn(5) {
+	case 0: // header-like text: brackets, spaces, digits
+		alpha := "[] 0123456789x-sha"
+		for i := range b {
+			b[i] = alpha[rnd.Intn(len(alpha))]
+		}
+	case 1: // zeros with a few bytes set
+		for i := 0; i < n/4; i++ {
+			b[rnd.Intn(n)] = byte(rnd.U64())
+		}
+	case 2: // starts like a record
+		copy(b, []byte("[sha1-0beec7b5ea3f0fdbc95d0dd47f3c5bc275da8a33 3]foo["))
+	default:
+		copy(b, rnd.Bytes(n))
+	}
+	return b
+}
+
+// ---- diskpacked oracle -----------------------------------------------------------------------------------
+
+const (
+	stNever   = iota
+	stAcked   // receive acknowledged, not removed: must be fetched back intact
+	stMaybe   // touched by the operation that crashed: present intact or absent
+	stRemoved // removal acknowledged: must be absent
+	stFree    // outside the property (the pack was truncated by hand)
+)
+
+type dpCtx struct {
+	label      string // clean | crash | torn-tail-then-append | delete-crash
+	tornTail   bool   // a crash left a partial record at the end of a pack
+	tornAppend bool   // ... and a later receive appended after it
+	reindexed  bool   // the index was rebuilt from the packs after the crash
+	delRef     string // ref of the crashed removal
+	delBody    bool   // its body was zeroed
+	dup        map[string]bool
+}
+
+type dpOracle struct {
+	body   map[string][]byte
+	status map[string]int
+	order  []string
+	ctx    dpCtx
+}
+
+func newDpOracle() *dpOracle {
+	return &dpOracle{body: map[string][]byte{}, status: map[string]int{}, ctx: dpCtx{label: "clean", dup: map[string]bool{}}}
+}
+
+func (o *dpOracle) add(b blobT) {
+	if _, ok := o.body[b.ref]; !ok {
+		o.body[b.ref] = b.body
+		o.order = append(o.order, b.ref)
+	}
+}
+
+func (o *dpOracle) withStatus(st int) []string {
+	var out []string
+	for _, r := range o.order {
+		if o.status[r] == st {
+			out = append(out, r)
+		}
+	}
+	return out
+}
+
+func allZero(b []byte) bool {
+	for _, x := range b {
+		if x != 0 {
+			return false
+		}
+	}
+	return true
+}
+
+// signature maps a raw failure class in the current history class to the stable signature; only the
+// three recorded defects get their special names, everything else stays "<class>:<label>".
+func (o *dpOracle) signature(class, ref string, observed []byte) string {
+	c := o.ctx
+	packReader := class == "stream-wrong-body" || class == "reindex-fails" || class == "removed-blob-streamed"
+	if c.tornAppend && (packReader || c.reindexed) {
+		return "dp-append-after-torn-tail-pack-unparseable"
+	}
+	if c.label == "delete-crash" && c.delBody && ref == c.delRef &&
+		(class == "fetch-wrong-body" || class == "stream-wrong-body") &&
+		len(observed) == len(o.body[ref]) && allZero(observed) {
+		return "dp-delete-crash-zeroed-body-served"
+	}
+	if c.dup[ref] && (class == "removed-blob-streamed" || (c.reindexed && (class == "removed-blob-served" || class == "removed-blob-enumerated"))) {
+		// the pack readers (StreamBlobs, Reindex) find the older record of a blob that was appended twice
+		return "dp-removed-duplicate-record-still-live-in-pack"
+	}
+	lbl := c.label
+	if c.reindexed {
+		lbl += "+reindex"
+	}
+	return "dp-" + class + ":" + lbl
+}
+
+func (g *gen) dpFail(o *dpOracle, class, ref, detail, exp string, observed []byte, lastOp string) {
+	ops := append(append([]string(nil), g.dpPath...), lastOp)
+	g.r.Fail(o.signature(class, ref, observed), detail, exp, hexs(observed), ops)
+}
+
+// dpRead runs dp.read over the whole universe and evaluates the property on the answers.
+func (g *gen) dpRead(o *dpOracle) {
+	line := "dp.read " + strings.Join(o.order, " ")
+	if len(o.order) == 0 {
+		line = "dp.read"
+	}
+	out := g.op(line)
+	rr := g.in.lastDpRead
+	if rr == nil || out == "harness-err" || out == "panic" || len(rr.fetch) != len(o.order) {
+		g.r.Fail("dp-read-broken", out, "", "", append(append([]string(nil), g.dpPath...), line))
+		return
+	}
+	present := map[string]bool{}
+	for i, ref := range o.order {
+		f, st, truth := rr.fetch[i], o.status[ref], o.body[ref]
+		if st == stFree {
+			continue
+		}
+		switch f.kind {
+		case "ok":
+			present[ref] = true
+			if !bytes.Equal(f.body, truth) || int(f.size) != len(truth) {
+				g.dpFail(o, "fetch-wrong-body", ref, fmt.Sprintf("Fetch(%s) size=%d returns %d bytes that are not the blob (%d bytes)", ref, f.size, len(f.body), len(truth)),
+					"intact or absent", f.body, line)
+			} else if st == stRemoved {
+				g.dpFail(o, "removed-blob-served", ref, "Fetch serves "+ref+" whose removal was acknowledged", "absent", f.body, line)
+			}
+		case "ne":
+			if st == stAcked {
+				g.dpFail(o, "acked-blob-lost", ref, "Fetch: acknowledged blob "+ref+" does not exist", "intact", nil, line)
+			}
+		default:
+			if st == stAcked || f.kind == "panic" {
+				g.dpFail(o, "acked-blob-unreadable", ref, "Fetch("+ref+") = "+f.kind, "intact", nil, line)
+			}
+		}
+		s := rr.stat[i]
+		if (s == "none") != (f.kind != "ok") || (s != "none" && s != fmt.Sprint(len(truth))) {
+			if !(f.kind == "err" && s != "none") {
+				g.dpFail(o, "stat-wrong", ref, fmt.Sprintf("Stat(%s)=%s but fetch=%s true size=%d", ref, s, f.kind, len(truth)), "", nil, line)
+			}
+		}
+	}
+	enumed := map[string]bool{}
+	for _, e := range rr.enum {
+		truth, ok := o.body[e.ref]
+		st := o.status[e.ref]
+		enumed[e.ref] = true
+		switch {
+		case !ok:
+			g.dpFail(o, "enum-unknown-ref", e.ref, "Enumerate lists "+e.ref+" which was never received", "", nil, line)
+		case st == stFree:
+		case int(e.size) != len(truth):
+			g.dpFail(o, "enum-wrong-size", e.ref, fmt.Sprintf("Enumerate lists %s with size %d, blob has %d", e.ref, e.size, len(truth)), "", nil, line)
+		case st == stRemoved:
+			g.dpFail(o, "removed-blob-enumerated", e.ref, "Enumerate lists removed "+e.ref, "absent", nil, line)
+		case !present[e.ref]:
+			g.dpFail(o, "enum-fetch-disagree", e.ref, "Enumerate lists "+e.ref+" which Fetch does not serve", "", nil, line)
+		}
+	}
+	if !rr.enumOK {
+		g.dpFail(o, "enum-error", "", "EnumerateBlobs returned an error", "", nil, line)
+	}
+	for _, ref := range o.withStatus(stAcked) {
+		if !enumed[ref] {
+			g.dpFail(o, "acked-blob-not-enumerated", ref, "Enumerate misses acknowledged "+ref, "", nil, line)
+		}
+	}
+	streamedSet := map[string]bool{}
+	for _, s := range rr.stream {
+		truth, ok := o.body[s.ref]
+		streamedSet[s.ref] = true
+		switch {
+		case ok && o.status[s.ref] == stFree:
+		case !ok || !bytes.Equal(s.body, truth):
+			g.dpFail(o, "stream-wrong-body", s.ref, fmt.Sprintf("StreamBlobs presents %s with %d bytes that are not the blob", s.ref, len(s.body)), "intact or absent", s.body, line)
+		case o.status[s.ref] == stRemoved:
+			g.dpFail(o, "removed-blob-streamed", s.ref, "StreamBlobs presents removed "+s.ref, "absent", s.body, line)
+		}
+	}
+	if !o.ctx.tornTail && len(o.withStatus(stFree)) == 0 {
+		// no partial record anywhere: the stream must run to its end and contain every acknowledged blob
+		if !rr.streamOK {
+			g.dpFail(o, "stream-error", "", "StreamBlobs fails although no pack has a torn tail", "end=ok", nil, line)
+		}
+		for _, ref := range o.withStatus(stAcked) {
+			if !streamedSet[ref] {
+				g.dpFail(o, "acked-blob-not-streamed", ref, "StreamBlobs misses acknowledged "+ref, "", nil, line)
+			}
+		}
+	}
+}
+
+// dpReindex rebuilds the index from the packs alone and evaluates "exactly the acknowledged set".
+func (g *gen) dpReindex(o *dpOracle, mode string) {
+	line := "dp.reindex " + mode
+	out := g.op(line)
+	o.ctx.reindexed = true
+	g.r.Hit("mech:reindex-walk-rebuilds-index")
+	if out != "ok" && len(o.withStatus(stFree)) == 0 {
+		g.dpFail(o, "reindex-fails", "", "diskpacked.Reindex returns an error on the packs a crash left", "ok", nil, line)
+	}
+	g.dpRead(o)
+}
+
+// dpSess runs one session and updates the oracle's expectations from the acknowledgements.
+func (g *gen) dpSess(o *dpOracle, subs []string, blobs [][]blobT) string {
+	packBytes := func() (n int) {
+		for _, p := range g.in.dp.packs {
+			n += len(p)
+		}
+		return n + len(g.in.dp.packs)
+	}
+	before := packBytes()
+	out := g.op("dp.sess " + strings.Join(subs, " "))
+	grew := packBytes() > before
+	res := strings.Fields(out)
+	for i, bs := range blobs {
+		if i >= len(res) {
+			break
+		}
+		switch res[i] {
+		case "ok":
+			for _, b := range bs {
+				if o.status[b.ref] != stAcked && o.status[b.ref] != stNever && o.status[b.ref] != stRemoved {
+					// a blob that may already have a record in a pack is appended again
+					o.ctx.dup[b.ref] = true
+				}
+				o.status[b.ref] = stAcked
+			}
+			if o.ctx.tornTail && grew {
+				o.ctx.tornAppend = true
+				o.ctx.label = "torn-tail-then-append"
+			}
+		case "done":
+			for _, b := range bs {
+				if o.status[b.ref] != stNever {
+					o.status[b.ref] = stRemoved
+				}
+			}
+		default:
+			g.r.Fail("dp-op-error", "session answered "+out, "ok", out, append([]string(nil), g.dpPath...))
+		}
+	}
+	return out
+}
+
+func subRecv(b blobT) string { return "r:" + b.ref + ":" + hexs(b.body) }
+func subDel(bs []blobT) string {
+	rs := make([]string, len(bs))
+	for i, b := range bs {
+		rs[i] = b.ref
+	}
+	return "d:" + strings.Join(rs, ",")
+}
+
+// history: a few sessions of receives (new and duplicate) and removals
+func (g *gen) dpHistory(o *dpOracle, n int) {
+	rnd := g.r.R
+	for i := 0; i < n; i++ {
+		var subs []string
+		var blobs [][]blobT
+		for k := 1 + rnd.Intn(3); k > 0; k-- {
+			acked := o.withStatus(stAcked)
+			switch {
+			case len(acked) > 0 && rnd.Chance(20):
+				var bs []blobT
+				for j := 1 + rnd.Intn(2); j > 0; j-- {
+					r := acked[rnd.Intn(len(acked))]
+					bs = append(bs, blobT{r, o.body[r]})
+				}
+				subs, blobs = append(subs, subDel(bs)), append(blobs, bs)
+			case len(o.order) > 0 && rnd.Chance(15):
+				r := o.order[rnd.Intn(len(o.order))]
+				b := blobT{r, o.body[r]}
+				subs, blobs = append(subs, subRecv(b)), append(blobs, []blobT{b})
+			default:
+				b := mkBlob(rnd, genBody(rnd, g.r.Thorough()))
+				o.add(b)
+				subs, blobs = append(subs, subRecv(b)), append(blobs, []blobT{b})
+			}
+		}
+		g.dpSess(o, subs, blobs)
+	}
+}
+
+func (o *dpOracle) snapshot() *dpOracle {
+	n := &dpOracle{body: map[string][]byte{}, status: map[string]int{}, order: append([]string(nil), o.order...), ctx: o.ctx}
+	for k, v := range o.status {
+		n.status[k] = v
+	}
+	for k, v := range o.body {
+		n.body[k] = v
+	}
+	n.ctx.dup = map[string]bool{}
+	for k, v := range o.ctx.dup {
+		n.ctx.dup[k] = v
+	}
+	return n
+}
+
+func pickMax(rnd *hk.Rand) int {
+	return []int{0, 0, 120, 200, 350, 1000}[rnd.Intn(6)]
+}
+
+// continueAfterCrash: further operations on the restarted store, then a rebuild of the index
+func (g *gen) continueAfterCrash(o *dpOracle, x blobT, again bool) {
+	rnd := g.r.R
+	y := mkBlob(rnd, genBody(rnd, g.r.Thorough()))
+	o.add(y)
+	g.dpSess(o, []string{subRecv(y)}, [][]blobT{{y}})
+	if again {
+		g.dpSess(o, []string{subRecv(x)}, [][]blobT{{x}}) // the client retries the receive that crashed
+	}
+	if acked := o.withStatus(stAcked); len(acked) > 0 && rnd.Chance(50) {
+		r := acked[rnd.Intn(len(acked))]
+		z := blobT{r, o.body[r]}
+		g.dpSess(o, []string{subDel([]blobT{z})}, [][]blobT{{z}})
+	}
+	g.dpRead(o)
+	g.dpReindex(o, "fresh")
+}
+
+func (g *gen) scenarioAppendCrash(idx int) {
+	r, rnd := g.r, g.r.R
+	g.newCase(fmt.Sprintf("dp-append-crash-%d", idx))
+	o := newDpOracle()
+	g.op(fmt.Sprintf("dp.init %d", pickMax(rnd)))
+	g.dpHistory(o, rnd.Intn(4))
+	var x blobT
+	switch {
+	case len(o.withStatus(stRemoved)) > 0 && rnd.Chance(20):
+		ref := o.withStatus(stRemoved)[0]
+		x = blobT{ref, o.body[ref]}
+	case len(o.withStatus(stAcked)) > 0 && rnd.Chance(10):
+		ref := o.withStatus(stAcked)[0]
+		x = blobT{ref, o.body[ref]}
+	default:
+		x = mkBlob(rnd, genBody(rnd, r.Thorough()))
+		o.add(x)
+	}
+	prior := o.status[x.ref]
+	g.dpSess(o, []string{subRecv(x)}, [][]blobT{{x}})
+	l := g.in.dpLast
+	if l == nil {
+		return
+	}
+	p := len(l.before.packs) - 1
+	total := len(g.in.dp.packs[p]) - len(l.before.packs[p])
+	rollover := len(g.in.dp.packs) > len(l.before.packs)
+	hdrLen := total - len(x.body)
+	g.op("dp.save 0")
+	base := o.snapshot()
+	r.Hit("mech:dp-append-header-body-sync-then-row")
+
+	type cp struct {
+		keep    int
+		np, row bool
+	}
+	var pts []cp
+	if total == 0 {
+		pts = []cp{{0, false, false}}
+		r.Hit("dp:dup-receive-skipped")
+	} else {
+		ks := map[int]bool{}
+		for _, k := range []int{0, 1, hdrLen - 1, hdrLen, hdrLen + 1, total - 1} {
+			if k >= 0 && k < total {
+				ks[k] = true
+			}
+		}
+		if r.Thorough() && len(x.body) <= 64 {
+			for k := 0; k < total; k++ {
+				ks[k] = true
+			}
+		} else {
+			for i := 0; i < 8; i++ {
+				ks[rnd.Intn(total)] = true
+			}
+		}
+		var keys []int
+		for k := range ks {
+			keys = append(keys, k)
+		}
+		sort.Ints(keys)
+		for _, k := range keys {
+			pts = append(pts, cp{k, false, false})
+		}
+		pts = append(pts, cp{total, false, false})
+		if rollover {
+			pts = append(pts, cp{total, true, false}, cp{total, true, true})
+			r.Hit("dp:rollover-during-crashed-append")
+		} else {
+			pts = append(pts, cp{total, false, true})
+		}
+	}
+	for i, pt := range pts {
+		g.op("dp.restore 0")
+		oc := base.snapshot()
+		b2i := map[bool]int{false: 0, true: 1}
+		g.op(fmt.Sprintf("dp.crash a %d %d %d", pt.keep, b2i[pt.np], b2i[pt.row]))
+		if prior != stAcked {
+			oc.status[x.ref] = stMaybe
+		}
+		if total > 0 {
+			oc.ctx.label = "crash"
+		}
+		switch {
+		case pt.keep > 0 && pt.keep < hdrLen:
+			oc.ctx.tornTail = true
+			r.Hit("crash:torn-header")
+		case pt.keep >= hdrLen && pt.keep < total:
+			oc.ctx.tornTail = true
+			r.Hit("crash:torn-body")
+		case pt.keep == total && total > 0 && !pt.row:
+			r.Hit("crash:complete-record-no-row")
+		case pt.row:
+			r.Hit("crash:row-written")
+		}
+		d := g.op("dp.dump")
+		if total > 0 {
+			r.Distinct("dp:" + d)
+		}
+		g.dpRead(oc)
+		// half of the points: rebuild the index right away; the others: go on working first
+		full := i%2 == 0 || r.Thorough()
+		if full {
+			g.op("dp.save 1")
+			o2 := oc.snapshot()
+			g.dpReindex(o2, "fresh")
+			g.op("dp.restore 1")
+		}
+		if i%2 == 1 || r.Thorough() || pt.keep == total {
+			g.continueAfterCrash(oc, x, rnd.Chance(60))
+		}
+	}
+	if idx == 0 {
+		r.Sample(map[string]any{"kind": "dp-append-crash", "blob": x.ref, "added_bytes": total, "crash_points": len(pts), "ops": firstN(g.dpPath, 4)})
+	}
+}
+
+func firstN(s []string, n int) []string {
+	if len(s) > n {
+		s = s[:n]
+	}
+	out := make([]string, len(s))
+	for i, x := range s {
+		if len(x) > 160 {
+			x = x[:160] + "..."
+		}
+		out[i] = x
+	}
+	return out
+}
+
+func (g *gen) scenarioDeleteCrash(idx int) {
+	r, rnd := g.r, g.r.R
+	g.newCase(fmt.Sprintf("dp-delete-crash-%d", idx))
+	o := newDpOracle()
+	g.op(fmt.Sprintf("dp.init %d", pickMax(rnd)))
+	for len(o.withStatus(stAcked)) == 0 {
+		g.dpHistory(o, 1+rnd.Intn(3))
+	}
+	acked := o.withStatus(stAcked)
+	ref := acked[rnd.Intn(len(acked))]
+	x := blobT{ref, o.body[ref]}
+	g.dpSess(o, []string{subDel([]blobT{x})}, [][]blobT{{x}})
+	g.op("dp.save 0")
+	base := o.snapshot()
+	r.Hit("mech:dp-delete-header-rewrite-zero-then-row")
+	b2i := map[bool]int{false: 0, true: 1}
+	for m := 0; m < 8; m++ {
+		hdr, body, row := m&1 != 0, m&2 != 0, m&4 != 0
+		g.op("dp.restore 0")
+		oc := base.snapshot()
+		g.op(fmt.Sprintf("dp.crash d %d %d %d", b2i[hdr], b2i[body], b2i[row]))
+		oc.status[x.ref] = stMaybe
+		oc.ctx.label, oc.ctx.delRef, oc.ctx.delBody = "delete-crash", x.ref, body
+		r.Hit(fmt.Sprintf("crash:delete-h%d-b%d-r%d", b2i[hdr], b2i[body], b2i[row]))
+		r.Distinct("dp:" + g.op("dp.dump"))
+		g.dpRead(oc)
+		g.op("dp.save 1")
+		o2 := oc.snapshot()
+		g.dpReindex(o2, []string{"fresh", "over"}[rnd.Intn(2)])
+		g.op("dp.restore 1")
+		if m%2 == 0 || r.Thorough() {
+			g.continueAfterCrash(oc, x, rnd.Chance(50))
+		}
+	}
+	if idx == 0 {
+		r.Sample(map[string]any{"kind": "dp-delete-crash", "blob": x.ref, "states": 8})
+	}
+}
+
+func (g *gen) scenarioClean(idx int) {
+	rnd := g.r.R
+	g.newCase(fmt.Sprintf("dp-clean-%d", idx))
+	o := newDpOracle()
+	g.op(fmt.Sprintf("dp.init %d", pickMax(rnd)))
+	for i := 0; i < 3; i++ {
+		g.dpHistory(o, 1+rnd.Intn(3))
+		g.op("dp.dump")
+		g.dpRead(o)
+	}
+	g.dpReindex(o, []string{"fresh", "over"}[rnd.Intn(2)])
+	o.ctx.reindexed = false
+	// the pack is cut by hand (not a crash of this store): the duplicate-receive check must notice that the
+	// indexed extent is beyond the file and append again
+	acked := o.withStatus(stAcked)
+	if len(acked) == 0 {
+		return
+	}
+	p := len(g.in.dp.packs) - 1
+	if n := len(g.in.dp.packs[p]); n > 0 {
+		g.op(fmt.Sprintf("dp.trunc %d", rnd.Intn(n)))
+		for _, ref := range o.order {
+			if o.status[ref] == stAcked || o.status[ref] == stRemoved {
+				o.status[ref] = stFree
+			}
+		}
+		size := func() (n int) {
+			for _, p := range g.in.dp.packs {
+				n += len(p) + 1
+			}
+			return n
+		}
+		// only a blob whose indexed extent is beyond the end of the file is appended again (a size check,
+		// not a content check: what the cut left inside the file is outside this property)
+		var again []string
+		for _, ref := range acked {
+			b := blobT{ref, o.body[ref]}
+			before := size()
+			g.op("dp.sess " + subRecv(b))
+			if size() > before {
+				again = append(again, ref)
+				g.r.Hit("mech:dp-duplicate-receive-reappends-beyond-filesize")
+			}
+		}
+		acked = again
+		g.op("dp.dump")
+		if len(acked) == 0 {
+			return
+		}
+		// what was received again must now be served intact by Fetch (index-based readers only: the cut may
+		// have left a torn record in the pack)
+		line := "dp.read " + strings.Join(acked, " ")
+		g.op(line)
+		if rr := g.in.lastDpRead; rr != nil && len(rr.fetch) == len(acked) {
+			for i, ref := range acked {
+				if f := rr.fetch[i]; f.kind != "ok" || !bytes.Equal(f.body, o.body[ref]) {
+					g.r.Fail("dp-rereceived-after-truncation-not-intact", "Fetch("+ref+") after the pack was cut and the blob received again", "intact", f.String(),
+						append(append([]string(nil), g.dpPath...), line))
+				}
+			}
+		}
+	}
+}
+
+// scenarioGarbage: malformed packs – model and implementation must agree on walk / stream behaviour
+func (g *gen) scenarioGarbage(idx int) {
+	rnd := g.r.R
+	g.newCase(fmt.Sprintf("dp-garbage-%d", idx))
+	var pack []byte
+	n := 1 + rnd.Intn(4)
+	for i := 0; i < n; i++ {
+		b := mkBlob(rnd, genBody(rnd, false))
+		pack = append(pack, []byte(fmt.Sprintf("[%s %d]", b.ref, len(b.body)))...)
+		pack = append(pack, b.body...)
+	}
+	for k := rnd.Intn(4); k > 0 && len(pack) > 0; k-- {
+		i := rnd.Intn(len(pack))
+		switch rnd.Intn(7) {
+		case 0:
+			pack[i] = "[] x-0\x00"[rnd.Intn(7)]
+		case 1:
+			pack = pack[:i]
+		case 2:
+			pack = append(pack[:i:i], append([]byte("[xxxx-0000 2]"), pack[i:]...)...)
+		case 3:
+			pack = append(pack, []byte("[sha1-0beec7b5ea3f0fdbc95d0dd47f3c5bc275da8a33 4294967296]")...)
+		case 4:
+			pack = append(pack[:i:i], append(bytes.Repeat([]byte{'a'}, 500+rnd.Intn(40)), pack[i:]...)...)
+		case 5:
+			pack = append(pack, []byte(fmt.Sprintf("[sha1-0beec7b5ea3f0fdbc95d0dd47f3c5bc275da8a33 %d]ab", rnd.Intn(5)))...)
+		default:
+			pack = append(pack[:i:i], append([]byte("[ 3]"), pack[i:]...)...)
+		}
+	}
+	extra := ""
+	if rnd.Chance(30) {
+		extra = " " + hexs([]byte("[sha1-0beec7b5ea3f0fdbc95d0dd47f3c5bc275da8a33 3]foo"))
+	}
+	g.op("dp.load " + hexs(pack) + extra)
+	g.op("dp.reindex fresh")
+	g.op("dp.dump")
+	g.op("dp.read sha1-0beec7b5ea3f0fdbc95d0dd47f3c5bc275da8a33")
+	g.r.Distinct("garbage:" + hexs(pack))
+}
+
+// ---- files store -------------------------------------------------------------------------------------------
+
+type fsOracle struct {
+	body   map[string][]byte
+	status map[string]int
+	order  []string
+	label  string
+}
+
+func newFsOracle() *fsOracle {
+	return &fsOracle{body: map[string][]byte{}, status: map[string]int{}, label: "clean"}
+}
+
+func (o *fsOracle) add(b blobT) {
+	if _, ok := o.body[b.ref]; !ok {
+		o.body[b.ref] = b.body
+		o.order = append(o.order, b.ref)
+	}
+}
+
+func (o *fsOracle) snapshot() *fsOracle {
+	n := &fsOracle{body: map[string][]byte{}, status: map[string]int{}, order: append([]string(nil), o.order...), label: o.label}
+	for k, v := range o.status {
+		n.status[k] = v
+	}
+	for k, v := range o.body {
+		n.body[k] = v
+	}
+	return n
+}
+
+func (g *gen) fsFail(o *fsOracle, class, detail, exp, obs, lastOp string) {
+	g.r.Fail("fs-"+class+":"+o.label, detail, exp, obs, append(append([]string(nil), g.fsPath...), lastOp))
+}
+
+func (g *gen) fsRead(o *fsOracle) {
+	line := "fs.read " + strings.Join(o.order, " ")
+	if len(o.order) == 0 {
+		line = "fs.read"
+	}
+	out := g.op(line)
+	rr := g.in.lastFsRead
+	if rr == nil || out == "panic" || len(rr.fetch) != len(o.order) {
+		g.r.Fail("fs-read-broken", out, "", "", append(append([]string(nil), g.fsPath...), line))
+		return
+	}
+	present := map[string]bool{}
+	for i, ref := range o.order {
+		f, st, truth := rr.fetch[i], o.status[ref], o.body[ref]
+		switch f.kind {
+		case "ok":
+			present[ref] = true
+			if !bytes.Equal(f.body, truth) || int(f.size) != len(truth) {
+				g.fsFail(o, "fetch-wrong-body", fmt.Sprintf("Fetch(%s) size=%d returns %d bytes that are not the blob (%d bytes)", ref, f.size, len(f.body), len(truth)),
+					"intact or absent", hexs(f.body), line)
+			} else if st == stRemoved {
+				g.fsFail(o, "removed-blob-served", "Fetch serves removed "+ref, "absent", hexs(f.body), line)
+			}
+		case "ne":
+			if st == stAcked {
+				g.fsFail(o, "acked-blob-lost", "acknowledged blob "+ref+" does not exist after the crash", "intact", "absent", line)
+			}
+		default:
+			g.fsFail(o, "fetch-error", "Fetch("+ref+") = "+f.kind, "", f.kind, line)
+		}
+		if s := rr.stat[i]; (s == "none") != (f.kind != "ok") || (s != "none" && s != fmt.Sprint(len(truth))) {
+			g.fsFail(o, "stat-wrong", fmt.Sprintf("Stat(%s)=%s, fetch=%s, true size %d", ref, s, f.kind, len(truth)), "", s, line)
+		}
+	}
+	enumed := map[string]bool{}
+	for _, e := range rr.enum {
+		truth, ok := o.body[e.ref]
+		enumed[e.ref] = true
+		switch {
+		case !ok:
+			g.fsFail(o, "enum-unknown-ref", "Enumerate lists "+e.ref+" (a temp or stray file?)", "", e.ref, line)
+		case int(e.size) != len(truth):
+			g.fsFail(o, "enum-wrong-size", fmt.Sprintf("Enumerate lists %s with size %d, blob has %d", e.ref, e.size, len(truth)), "", "", line)
+		case o.status[e.ref] == stRemoved:
+			g.fsFail(o, "removed-blob-enumerated", "Enumerate lists removed "+e.ref, "absent", "", line)
+		case !present[e.ref]:
+			g.fsFail(o, "enum-fetch-disagree", "Enumerate lists "+e.ref+" which Fetch does not serve", "", "", line)
+		}
+	}
+	if !rr.enumOK {
+		g.fsFail(o, "enum-error", "EnumerateBlobs returned an error", "", "", line)
+	}
+	for _, ref := range o.order {
+		if o.status[ref] == stAcked && !enumed[ref] {
+			g.fsFail(o, "acked-blob-not-enumerated", "Enumerate misses acknowledged "+ref, "", "", line)
+		}
+	}
+	// temp files present but never listed?
+	for p := range g.in.fs.files {
+		if !strings.HasSuffix(p, ".dat") {
+			g.r.Hit("mech:enumerate-ignores-non-dat")
+			break
+		}
+	}
+}
+
+// checkLog: the property's mechanism on the recorded call log itself: the data of the file that is
+// renamed into place was synced after its last write, and the temp name is not a .dat name.
+func (g *gen) checkLog(o *fsOracle, line string) {
+	synced, wrote := false, false
+	for _, c := range g.in.fsLog {
+		if c.failed {
+			continue
+		}
+		switch c.kind {
+		case "tempfile":
+			if strings.HasSuffix(string(c.data), ".dat") {
+				g.fsFail(o, "temp-name-is-dat", "temp file "+string(c.data)+" has a blob file name", "", "", line)
+			}
+		case "write":
+			wrote, synced = true, false
+		case "sync":
+			synced = true
+		case "rename":
+			if wrote && !synced {
+				g.fsFail(o, "rename-before-sync", "rename of un-synced data", "", logString(g.in.fsLog), line)
+			}
+			if synced {
+				g.r.Hit("mech:files-write-temp-fsync-close-rename")
+			}
+		}
+	}
+}
+
+func (g *gen) fsRecv(o *fsOracle, b blobT) {
+	line := "fs.recv " + b.ref + " " + hexs(b.body)
+	out := g.op(line)
+	g.checkLog(o, line)
+	if strings.HasSuffix(out, "-> ok") {
+		o.status[b.ref] = stAcked
+	} else {
+		g.fsFail(o, "receive-error", out, "ok", out, line)
+	}
+}
+
+func (g *gen) fsHistory(o *fsOracle, n int) {
+	rnd := g.r.R
+	for i := 0; i < n; i++ {
+		var acked []string
+		for _, r := range o.order {
+			if o.status[r] == stAcked {
+				acked = append(acked, r)
+			}
+		}
+		switch {
+		case len(acked) > 0 && rnd.Chance(20):
+			r := acked[rnd.Intn(len(acked))]
+			g.op("fs.remove " + r)
+			o.status[r] = stRemoved
+		case len(o.order) > 0 && rnd.Chance(15):
+			r := o.order[rnd.Intn(len(o.order))]
+			g.fsRecv(o, blobT{r, o.body[r]})
+		default:
+			b := mkBlob(rnd, genBody(rnd, g.r.Thorough()))
+			o.add(b)
+			g.fsRecv(o, b)
+		}
+	}
+}
+
+var failKinds = [][2]string{{"mkdirall", "1"}, {"tempfile", "1"}, {"write", "1"}, {"sync", "1"}, {"close", "1"}, {"lstat", "1"}, {"rename", "1"}, {"lstat", "2"}}
+
+func (g *gen) scenarioFsCrash(idx int, failing bool) {
+	r, rnd := g.r, g.r.R
+	name := "fs-receive-crash"
+	if failing {
+		name = "fs-failing-receive-crash"
+	}
+	g.newCase(fmt.Sprintf("%s-%d", name, idx))
+	o := newFsOracle()
+	g.op("fs.init")
+	if rnd.Chance(40) {
+		g.op("fs.put /r/sha1/0b/ee/sha1-0beec7b5ea3f0fdbc95d0dd47f3c5bc275da8a33.dat.tmp777 6161")
+		g.op("fs.put /r/cache/sha1-0beec7b5ea3f0fdbc95d0dd47f3c5bc275da8a33.dat 616161")
+	}
+	g.fsHistory(o, rnd.Intn(4))
+	var x blobT
+	var acked, removed []string
+	for _, ref := range o.order {
+		switch o.status[ref] {
+		case stAcked:
+			acked = append(acked, ref)
+		case stRemoved:
+			removed = append(removed, ref)
+		}
+	}
+	switch {
+	case len(removed) > 0 && rnd.Chance(25):
+		x = blobT{removed[0], o.body[removed[0]]}
+	case len(acked) > 0 && rnd.Chance(15):
+		x = blobT{acked[0], o.body[acked[0]]}
+	default:
+		x = mkBlob(rnd, genBody(rnd, r.Thorough()))
+		o.add(x)
+	}
+	prior := o.status[x.ref]
+	var line string
+	if failing {
+		fk := failKinds[idx%len(failKinds)]
+		line = fmt.Sprintf("fs.recvfail %s %s %s %s", x.ref, hexs(x.body), fk[0], fk[1])
+		out := g.op(line)
+		g.checkLog(o, line)
+		r.Hit("fs:fail-" + fk[0] + fk[1])
+		if strings.HasSuffix(out, "-> ok") {
+			o.status[x.ref] = stAcked
+		} else if prior != stAcked {
+			o.status[x.ref] = stMaybe
+		}
+		// after the failed call returned: nothing partial, and no temp file left behind
+		o.label = "after-failed-receive"
+		g.fsRead(o)
+		for p := range g.in.fs.files {
+			if strings.Contains(p, ".tmp") && !strings.HasSuffix(p, ".tmp777") {
+				g.fsFail(o, "temp-file-left-behind", p, "removed", p, line)
+			}
+		}
+	} else {
+		g.fsRecv(o, x)
+	}
+	nlog := len(g.in.fsLog)
+	g.op("fs.save 0")
+	base := o.snapshot()
+	for k := 0; k <= nlog; k++ {
+		js := []int{0, 1 << 20}
+		if len(x.body) > 1 {
+			js = append(js, 1+rnd.Intn(len(x.body)-1))
+		}
+		for _, j := range js {
+			g.op("fs.restore 0")
+			oc := base.snapshot()
+			oc.label = "crash"
+			g.op(fmt.Sprintf("fs.crash %d %d", k, j))
+			if k < nlog && prior != stAcked {
+				oc.status[x.ref] = stMaybe // the receive had not been acknowledged
+			}
+			if prior == stAcked {
+				oc.status[x.ref] = stAcked
+			}
+			r.Distinct("fs:" + g.op("fs.dump"))
+			r.Hit(fmt.Sprintf("crash:fs-prefix-%d", k))
+			g.fsRead(oc)
+			if j == 0 && (k%3 == 0 || r.Thorough()) {
+				// restart and go on: the client retries
+				g.fsRecv(oc, x)
+				oc.label = "after-crash-retry"
+				g.fsRead(oc)
+			}
+		}
+	}
+	if idx == 0 && !failing {
+		r.Sample(map[string]any{"kind": "fs-receive-crash", "blob": x.ref, "calls": nlog, "log": logString(g.in.fsSlots[0].log)})
+	}
+}
+
+func (g *gen) scenarioFsRemoveCrash(idx int) {
+	rnd := g.r.R
+	g.newCase(fmt.Sprintf("fs-remove-crash-%d", idx))
+	o := newFsOracle()
+	g.op("fs.init")
+	for len(o.order) == 0 {
+		g.fsHistory(o, 1+rnd.Intn(3))
+	}
+	ref := o.order[rnd.Intn(len(o.order))]
+	prior := o.status[ref]
+	g.op("fs.remove " + ref)
+	g.op("fs.save 0")
+	for k := 0; k <= 1; k++ {
+		g.op("fs.restore 0")
+		oc := o.snapshot()
+		oc.label = "remove-crash"
+		g.op(fmt.Sprintf("fs.crash %d 0", k))
+		if k == 1 {
+			oc.status[ref] = stRemoved
+		} else if prior == stAcked {
+			oc.status[ref] = stMaybe
+		}
+		g.r.Distinct("fs:" + g.op("fs.dump"))
+		g.fsRead(oc)
+	}
+}
+
+// scenarioFsStray: directory trees with temp files, foreign files and odd names – enumerate must list
+// exactly the well-formed .dat blobs
+func (g *gen) scenarioFsStray(idx int) {
+	rnd := g.r.R
+	g.newCase(fmt.Sprintf("fs-stray-files-%d", idx))
+	o := newFsOracle()
+	o.label = "stray-files"
+	g.op("fs.init")
+	g.fsHistory(o, 2+rnd.Intn(3))
+	names := []string{
+		"/r/sha224/ab/cd/sha224-abcd.dat.tmp123", "/r/sha224/ab/cd/notes.txt", "/r/sha224/ab/cd/.dat", "/r/sha224/ab/cd/Sha224-ABCD.dat",
+		"/r/partition/sha1-0beec7b5ea3f0fdbc95d0dd47f3c5bc275da8a33.dat", "/r/packed/x.dat", "/r/README", "/r/sha224/zz/sha224-x.dat",
+		"/r/sha1/0b/ee/sha1-0beec7b5ea3f0fdbc95d0dd47f3c5bc275da8a33.dat.tmp", "/r/sha1/0b/ee/sha1-0beec7b5ea3f0fdbc95d0dd47f3c5bc275da8a33.dat1",
+		"/r/sha1/0b/sha1-0beec.datx", "/r/sha1/0b/ee/bogus-zz.dat",
+	}
+	for k := 2 + rnd.Intn(4); k > 0; k-- {
+		g.op("fs.put " + names[rnd.Intn(len(names))] + " " + hexs(rnd.Bytes(rnd.Intn(5))))
+	}
+	if rnd.Chance(30) {
+		g.op("fs.mkdir /r/sha224/ab/cd/sub.dat")
+	}
+	g.op("fs.dump")
+	g.fsRead(o)
+	if rnd.Chance(25) {
+		// a plain file with a shard-directory name makes the walk fail: model and code must agree
+		g.op("fs.put /r/sha224/ab/ff 00")
+		g.op("fs.read")
+	}
+}
+
+// ---- malformed protocol lines -----------------------------------------------------------------------------
+
+func (g *gen) scenarioMalformed() {
+	g.newCase("malformed-ops")
+	for _, l := range []string{
+		"dp.init", "dp.init x", "dp.sess", "dp.sess r:zz:00", "dp.sess r:sha1-0beec7b5ea3f0fdbc95d0dd47f3c5bc275da8a33:0G", "dp.sess d:",
+		"dp.crash a 0 0 0", "dp.crash d 0 0 0", "dp.restore 3", "dp.save 9", "dp.trunc 5", "dp.read nonsense", "dp.reindex now", "dp.load",
+		"dp.load zz", "fs.recv x 00", "fs.recvfail sha1-0beec7b5ea3f0fdbc95d0dd47f3c5bc275da8a33 00 lstat 3", "fs.recvfail sha1-0beec7b5ea3f0fdbc95d0dd47f3c5bc275da8a33 00 fsync 1",
+		"fs.crash 0 0", "fs.restore 1", "fs.put /r/x", "fs.read sha1", "nope", "dp.", "fs.",
+	} {
+		g.op(l)
+	}
+	g.op("dp.init 0")
+	g.op("dp.sess r:sha1-0beec7b5ea3f0fdbc95d0dd47f3c5bc275da8a33:666f6f")
+	g.op("dp.crash a 999 0 0")
+	g.op("dp.crash a 3 1 0")
+	g.op("dp.crash a 3 0 1")
+	g.op("dp.crash d 1 1 1")
+	g.op("fs.init")
+	g.op("fs.recv sha1-0beec7b5ea3f0fdbc95d0dd47f3c5bc275da8a33 666f6f")
+	g.op("fs.crash 99 0")
+}
+
+// ---- probes of the recorded findings ------------------------------------------------------------------------
+
+func probeOps(ops []string) (*interp, []string) {
+	in := newInterp()
+	var outs []string
+	for _, l := range ops {
+		outs = append(outs, in.exec(strings.Fields(l)))
+	}
+	return in, outs
+}
+
+const fooRef = "sha1-0beec7b5ea3f0fdbc95d0dd47f3c5bc275da8a33" // sha1("foo")
+const barRef = "sha1-62cdb7020ff920e5aa642c3d4066950dd1f01f4d" // sha1("bar")
+
+var (
+	witnessTornBody = []string{"dp.init 0", "dp.sess r:" + fooRef + ":666f6f", "dp.crash a 51 0 0", "dp.reindex fresh", "dp.read " + fooRef}
+	witnessTornThenAppend = []string{"dp.init 0", "dp.sess r:" + fooRef + ":666f6f", "dp.crash a 5 0 0", "dp.sess r:" + barRef + ":626172",
+		"dp.reindex fresh", "dp.read " + barRef}
+	witnessDeleteZeroed = []string{"dp.init 0", "dp.sess r:" + fooRef + ":666f6f", "dp.sess d:" + fooRef, "dp.crash d 1 1 0", "dp.read " + fooRef}
+	witnessDupResurrected = []string{"dp.init 0", "dp.sess r:" + fooRef + ":666f6f", "dp.crash a 52 0 0", "dp.sess r:" + fooRef + ":666f6f",
+		"dp.sess d:" + fooRef, "dp.reindex fresh", "dp.read " + fooRef}
+)
+
+func (g *gen) probes() {
+	_, o := probeOps(witnessTornBody)
+	g.r.Probe("F-C03-1", strings.Contains(o[len(o)-1], "F ok:3:666f "), "torn body then Reindex: "+o[len(o)-1])
+	_, o = probeOps(witnessTornThenAppend)
+	g.r.Probe("F-C03-2", o[len(o)-2] == "err" || !strings.Contains(o[len(o)-1], "F ok:3:626172 "), "torn header, restart, append, Reindex: "+o[len(o)-2]+" / "+o[len(o)-1])
+	_, o = probeOps(witnessDeleteZeroed)
+	g.r.Probe("F-C03-3", strings.Contains(o[len(o)-1], "F ok:3:000000 "), "crash between zeroing and row deletion: "+o[len(o)-1])
+	_, o = probeOps(witnessDupResurrected)
+	g.r.Probe("F-C03-4", strings.Contains(o[len(o)-1], "F ok:3:666f6f "), "removed blob with an older duplicate record, Reindex: "+o[len(o)-1])
+}
+
+// Run generates the C03 cases.
+func Run(r *hk.Run) {
+	g := newGen(r)
+	r.Res.Rule = "cases: diskpacked (real store via CreateStorage on temp dirs; every op = materialise state, open, run, close, read back): " +
+		"(a) random receive/remove history, one more receive, then EVERY chosen crash point of it (kept bytes 0,1,hdr-1,hdr,hdr+1,total-1 + 8 random; " +
+		"thorough: every byte for bodies <= 64) x row/no row x rolled-over pack/not, each followed by restart, Fetch/Stat/Enumerate/StreamBlobs of the whole universe, " +
+		"Reindex from the packs alone, further receives/removes and a second Reindex; (b) all 8 subset states of a crashed removal, same follow-up; " +
+		"(c) crash-free histories with roll-over, duplicate receive, hand-truncated pack; (d) malformed packs (model vs code only). " +
+		"files store over the recording VFS: (e) every prefix of the recorded call log x un-synced data dropped/kept/partly kept, read back through Fetch/Stat/Enumerate, retry; " +
+		"(f) the same with each VFS call failing; (g) crashed removals; (h) stray/temp files under enumerate. " +
+		"distinct = distinct on-disk states after a crash (dump of packs+rows, or of the VFS), plus distinct malformed packs; non-trivial = the crashed operation had changed the state"
+	q := func(quick, thorough int) int {
+		if r.Thorough() {
+			return thorough
+		}
+		return quick
+	}
+	for i := 0; i < q(10, 60); i++ {
+		g.scenarioAppendCrash(i)
+	}
+	for i := 0; i < q(5, 30); i++ {
+		g.scenarioDeleteCrash(i)
+	}
+	for i := 0; i < q(6, 40); i++ {
+		g.scenarioClean(i)
+	}
+	for i := 0; i < q(40, 400); i++ {
+		g.scenarioGarbage(i)
+	}
+	for i := 0; i < q(10, 60); i++ {
+		g.scenarioFsCrash(i, false)
+	}
+	for i := 0; i < q(8, 32); i++ {
+		g.scenarioFsCrash(i, true)
+	}
+	for i := 0; i < q(4, 20); i++ {
+		g.scenarioFsRemoveCrash(i)
+	}
+	for i := 0; i < q(8, 60); i++ {
+		g.scenarioFsStray(i)
+	}
+	g.scenarioMalformed()
+	g.probes()
+}
